@@ -1,4 +1,4 @@
 SPECIFICATION Spec
-CONSTANTS MaxLen = 4
+CONSTANTS MaxLen = 5
 INVARIANTS InvDecEnc InvEncDec InvIntCanon InvScanAgrees InvTypeOK
 CHECK_DEADLOCK FALSE
